@@ -536,7 +536,16 @@ def _run(ix, R):
         want_mid = spec(fl, '(nb[1:] + nb[:-1])/2', pe)
         if not any(fl.tab.equal(e.value, want_mid) for e in fl.of('store')):
             why.append('interior edges are not mid-points')
-        if r.guards and [g for g in r.guards if not (g.early and fl.tab.equal(g.rf, spec(fl, 'len(od.shape) - 1', pe)))]:
+        # "more than one axis", however it is asked
+        def multi_axis(g):
+            if g.rf is None:
+                return False
+            if fl.tab.equal(g.rf, spec(fl, 'len(od.shape) - 1', pe)):
+                return g.early or not g.positive
+            return any(guard_is(fl, g, spec(fl, t_, pe), pos) for t_, pos in (
+                ('len(od.shape) != 1', False), ('len(od.shape) > 1', False), ('len(od.shape) >= 2', False),
+                ('len(od.shape) == 1', True), ('len(od.shape) < 2', True)))
+        if r.guards and [g for g in r.guards if not multi_axis(g)]:
             why.append('1-D result returned under %s' % [g.text() for g in r.guards])
         for e in hs:
             if [g.node for g in e.guards] != [g.node for g in r.guards]:
@@ -583,34 +592,32 @@ def _run(ix, R):
             'i over every target bin')
     with R.guard('5.hist.2d', 'ALG', site, stmt):
         f = ix.func(site)
-        from sa.pattern import find
-        bnd, missing = find(f.node, [
-            "V_d = np.digitize(V_ob, V_E, right=True)",
-            "V_m = [V_od[..., V_d == V_i].mean(axis=V_ax) for V_i in range(1, len(V_E))]",
-            "return np.column_stack(V_m)"])
-        ok = bnd is not None
-        if ok:
-            ps = f.params()
-            ok = bnd['V_ob'] == ps[0] and bnd['V_od'] == ps[1]
-            if not ok:
-                missing = ['digitize / mean use %s, %s' % (bnd['V_ob'], bnd['V_od'])]
-        if ok:
-            fl = mkflow(ix, site)
-            pe = param_env(fl, f, ['ob', 'od', 'nb'])
-            ax = [e for e in fl.of('assign') if e.name == bnd['V_ax']]
-            ok = bool(ax) and all(fl.tab.equal(e.value, spec(fl, 'len(od.shape) - 1', pe)) for e in ax)
-            if not ok:
-                missing = ['mean axis is %s' % [fmt(fl, e.value) for e in ax]]
-            dg = [e for e in fl.of('assign') if e.name == bnd['V_d']]
-            hs = calls(fl, 'histogram')
-            if ok and not (len(dg) == 1 and hs and fl.tab.equal(atom_of(fl, dg[0].value).args[1], hs[0].args[1])):
-                ok = False
-                missing = ['digitize does not use the edge array of the 1-D branch']
-        if bnd is None:
-            R.error('5.hist.2d', 'ALG', site, stmt, 'no statements of the expected shape: %s' % missing, loc=f.loc())
+        fl = mkflow(ix, site)
+        pe = param_env(fl, f, ['ob', 'od', 'nb'])
+        hs = calls(fl, 'histogram')
+        rets = [e for e in fl.of('return') if e.value is not None and 'histogram' not in fmt(fl, e.value)]
+        if len(rets) != 1 or not hs:
+            R.error('5.hist.2d', 'ALG', site, stmt, '%d returns besides the 1-D one' % len(rets), loc=f.loc())
         else:
-            R.check('5.hist.2d', 'ALG', site, stmt, ok, key='; '.join(m[:70] for m in missing),
-                    detail='the statements are there but: %s' % missing, loc=f.loc())
+            E = hs[0].args[1]
+            b2 = dict(pe, E=E)
+            b2['D'] = spec(fl, 'digitize(ob, E, right=True)', b2)
+            forms = ['column_stack([od[..., D == i_].mean(axis=%s) for i_ in range(1, len(E))])' % ax_
+                     for ax_ in ('len(od.shape) - 1', '-1')]
+            forms += ['column_stack([mean(od[..., D == i_], axis=%s) for i_ in range(1, len(E))])' % ax_
+                      for ax_ in ('len(od.shape) - 1', '-1')]
+            got = rets[0].value
+            ok = any(fl.tab.equal(got, spec(fl, t_, b2)) for t_ in forms)
+            if not ok and got.mentions(lambda a: a.head in ('mutated', 'phi')):
+                R.error('5.hist.2d', 'ALG', site, stmt, 'the 2-D result is built by statements this rule cannot follow: %s' %
+                        fmt(fl, got)[:160], loc=f.loc())
+            elif not ok and not got.mentions(lambda a: a.head in ('call', 'mcall') and a.extra and a.extra[0] == 'fn:digitize'):
+                # another algorithm altogether: nothing to compare with (5.hist.order still applies)
+                R.error('5.hist.2d', 'ALG', site, stmt, 'the 2-D result is not computed from digitize(): %s' % fmt(fl, got)[:160],
+                        loc=f.loc())
+            else:
+                R.check('5.hist.2d', 'ALG', site, stmt, ok, key=fmt(fl, got)[:120],
+                        detail='2-D result is %s' % fmt(fl, got)[:300], loc=f.loc(rets[0].node))
     stmt = ('the histogram binner does not depend on the order of the native points: the native grid and data only enter '
             'order-insensitive operations (digitize / histogram / masks), never a positional search or a segment reduction')
     with R.guard('5.hist.order', 'PERM', site, stmt):
